@@ -25,7 +25,8 @@ EXPLANATION = (
     "(R3) SetFileIdIncrement() dominates ReadData1 in AppendFile, ClearInstances() dominates AppendFile in the Read* "
     "entry points, _fileIdIncr is written only by the constructor and SetFileIdIncrement, whose offset expression is "
     "evaluated from its expression tree for every MaxFileId in [0,200000] and powers of two up to 2^30 and must exceed "
-    "it. (R4) In ReadEntityRef `id += addFileId` dominates FindFileId(id). Not decided: that earlier instances keep "
+    "it. (R4) In ReadEntityRef `id += addFileId` dominates FindFileId(id). (R5) maxFileId, from which the offset is computed, is a high-water mark: "
+    "it is only written -1, max+1 or an instance id under the guard `id > MaxFileId()` (writer rule shared with C13). Not decided: that earlier instances keep "
     "their values; behaviour for ids near INT_MAX.")
 
 FAMILY = r"^(addFileId|idIncr\w*|fileIdIncr)$"
@@ -305,8 +306,30 @@ def r4(prog, res):
     res.floor("R4.reference_shift", "reference readers", n, 1)
 
 
+def r5(prog, res):
+    """The offset is computed from MaxFileId(): it exceeds every earlier id only if maxFileId really is a high-water mark.
+    Same writer rule as C13 R3 (only -1, max+1, or an id under the guard `id > max`), reported here under C14."""
+    import report
+    from rules import c13
+    sub = report.Result("C14")
+    c13.r3_max(prog, sub)
+    n = 0
+    for o in sub.obs:
+        n += 1
+        res.add(o.rule.replace("R3.", "R5."), "R5|" + "|".join(o.key.split("|")[1:]), o.where, o.ok,
+                o.msg if o.ok else o.msg + " — the append offset is derived from it, so instances of an appended file can collide with earlier ones")
+    res.broken.extend(sub.broken)
+    res.floor("R5", "writers of maxFileId (incl. NextFileId)", n, 5)
+    # the offset really is computed from MaxFileId()
+    f = prog.one("STEPfile::SetFileIdIncrement")
+    ok = f is not None and any((c.get("fn") or "").endswith("MaxFileId") for c in f.calls())
+    res.add("R5.offset_from_high_water", "R5|src/cleditor/STEPfile.cc|STEPfile::SetFileIdIncrement|MaxFileId", f.where() if f else "src/cleditor/STEPfile.cc:1", ok,
+            "the increment is derived from InstMgr::MaxFileId()" if ok else "SetFileIdIncrement no longer reads MaxFileId()")
+
+
 def run(prog, res, tier):
     r1(prog, res)
     r2(prog, res)
     r3(prog, res)
     r4(prog, res)
+    r5(prog, res)
